@@ -78,6 +78,19 @@ def run(ctx):
             sig = "retrydelay:%s:%s%s%s:%s" % (cfg["kind"], "jit" if cfg["jit"] else "", "jf" if cfg["jfp"] else "", "maxdur" if cfg["maxdur"] else "", what["ev"])
             vlib.add_violation(ctx, sig, "event %s is not allowed by the envelope after %s" % (json.dumps(what), json.dumps(bad[:-1])[:600]),
                                dict(trace=bad, rejected_line=reached, tlc_tail=info.get("tail", "")[-1500:]))
+    # the scheduled delay also elapses in full when the attempt before it ended in another way than by returning an error: an
+    # inner Timeout that fired, a hedge that lost, a refused bulkhead permit, a breaker that opened (threaded model, exact instants)
+    import p_c07, tscen
+    from tscen import scenario, fn, start, env, to, hg, retry, fb, bh, cb
+    scs = []
+    for st, extra in (([retry(2, dly=3), to(1)], []), ([retry(2, dly=2), to(1), retry(1, dly=1)], []), ([fb(), retry(2, dly=3), to(2)], []), ([retry(2, dly=2), hg(1, 1)], []),
+                      ([retry(2, dly=2), bh("b", 1, wait=1)], [env("BhTake", 0, id="b"), env("BhRelease", 4, id="b")]), ([retry(3, dly=2), cb("c")], []), ([to(9), retry(3, dly=2), to(1)], [])):
+        for ds in ((3, 3, 0), (3, 0, 3), (0, 3, 3), (2, 1, 2)):
+            for coop in (True, False):
+                fns = [[fn(d, "R0", "E1", coop) for d in ds] + [fn(0, "R1")] * 3]
+                scs.append(scenario(st, fns, extra + [start(1)]))
+                scs.append(scenario(st, fns, extra + [start(1, 0, True)]))
+    p_c07.run_family(ctx, "c13t", scs)
     return vlib.finish(ctx, rule="random retry configurations (none/fixed/backoff x4 factors/random range, jitter duration or factor, max duration, delay function scripts) at base magnitudes 1us..1h, "
                        "3-8 retries with attempts of varying duration, in virtual time; every OnRetryScheduled delay and next attempt start is a trace event validated by TLC; "
                        "non-trivial = trace with backoff, jitter or max duration and at least 3 events")
